@@ -15,6 +15,8 @@
                       dtype (never a bare kind character: 'f' as a dtype is float32, 'i' is int32)
   R10 union direction every pair of directions (increasing / decreasing / single label) x relative placement of the ranges: two monotonic
                       operands with compatible directions are merged by np.union1d, reversed iff the common direction is decreasing
+  R11 empty label sets first / last labels are read only under a size guard (_common_axis, union, intersection); reindexing from an
+                      empty source axis (np.take from empty raises) must be guarded
   R9 common kind      _get_cast_kind evaluated on every pair of kinds: equal -> same, object wins, float over int
 """
 from .. import terms as T
@@ -602,6 +604,100 @@ def rule_union_direction(ctx):
             ctx.holds('R10', inst)
 
 
+def _nonempty_fact(atom, pol):
+    """the label container X that the guard `atom == pol` proves non-empty (or None)"""
+    def sized(t):
+        if t[0] == 'call' and T.call_name(t) == 'len' and t[2]:
+            return t[2][0]
+        if t[0] == 'attr' and t[2] == 'size':
+            return t[1][1] if (t[1][0] == 'attr' and t[1][2] == 'values') else t[1]
+        return None
+    if atom[0] != 'cmp':
+        return None
+    op, a, b = atom[1], atom[2], atom[3]
+    if op == '==' and b[0] == 'const' and isinstance(b[1], int):
+        x = sized(a)
+        if x is not None and ((b[1] > 0 and pol is True) or (b[1] == 0 and pol is False)):
+            return x
+    if op == '<' and a[0] == 'const' and isinstance(a[1], int) and a[1] >= 0 and pol is True:
+        return sized(b)
+    if op == '<' and b[0] == 'const' and isinstance(b[1], int) and b[1] <= 1 and pol is False:     # not (size < 1)
+        return sized(a)
+    return None
+
+
+def rule_empty_labels(ctx):
+    """R11: "label sets that are ... empty" - the first / last label of an axis is only read where the axis is known to be non-empty,
+    and the reindex step does not take from an empty source axis"""
+    ctx.rule('R11', 'empty label sets: first/last label read only under a size guard; reindexing an empty source axis is handled', 3)
+    fi = ctx.fn(AL + '_common_axis')
+    AXES = P_('axes')
+    ev = run(ctx, fi)
+    n = 0
+    bad = set()
+    for p in ev.paths:
+        nonempty = []
+        for a, pol in p.guards:
+            x = _nonempty_fact(a, pol)
+            if x is not None:
+                nonempty.append(x)
+            for t in T.subterms(a):
+                if t[0] == 'sub' and t[2] in (const(0), const(-1)) and t[1] != AXES and (T.contains(t[1], AXES) or T.contains(t[1], ('name', '_common_axis'))) \
+                        and not (t[1][0] == 'sub' and t[1][2][0] == 'slice'):
+                    n += 1
+                    if t[1] not in nonempty:
+                        bad.add(T.show(t))
+    for b in sorted(bad):
+        ctx.violated('R11', fi, 'label read %s' % b, 'the first label of an axis is read (%s) on a path that has not established that the axis is non-empty: '
+                     'align() of an input whose label set is empty raises IndexError instead of returning the union / intersection' % b, node=fi.node)
+    if not bad:
+        ctx.holds('R11', '_common_axis: %d first-label reads, each under a size guard' % n)
+    # union / intersection: ends are read only after the size == 0 early returns
+    for name in ('Axis.union', 'Axis.intersection'):
+        f2 = ctx.fn(AX + name)
+        A, B, cm = merge_operands(ctx, f2)
+        ev2 = run(ctx, f2)
+        bad2 = set()
+        cnt = 0
+        for p in ev2.paths:
+            nonempty = []
+            for a, pol in p.guards:
+                x = _nonempty_fact(a, pol)
+                if x is not None:
+                    nonempty.append(x)
+                for t in T.subterms(a):
+                    if t[0] == 'sub' and t[2] in (const(0), const(-1)) and t[1] in (A, B):
+                        cnt += 1
+                        owner = t[1][1]
+                        if owner not in nonempty and t[1] not in nonempty:
+                            bad2.add(T.show(t)[-40:])
+        for b in sorted(bad2):
+            ctx.violated('R11', f2, 'label read ...%s' % b, 'an end label is read before the empty-operand early return', node=f2.node)
+        if not bad2:
+            ctx.holds('R11', '%s: %d end-label reads, each after the size tests' % (name, cnt))
+    # reindex step: np.take / ndarray.take from an empty source raises for any non-empty request (NumPy: "cannot do a non-empty take from an empty axes")
+    fr = ctx.fn(AL + 'reindex_axis')
+    evr = run(ctx, fr, mode='join')
+    src = None
+    guarded = False
+    for p in evr.paths:
+        for e in p.state.events:
+            if e.kind == 'call' and T.call_name(e.a) in ('locate_many', 'take_axis'):
+                src = e
+                for a, pol in e.guards:
+                    x = _nonempty_fact(a, pol)
+                    if x is not None and 'axes[' in T.show(x):
+                        guarded = True
+    if src is None:
+        ctx.undecide('R11', 'reindex_axis: the locate / take step was not found')
+    elif not guarded:
+        ctx.violated('R11', fr, 'source axis may be empty', 'reindex_axis locates and takes positions in the source axis without a size test: for an input whose '
+                     'label set is empty and a non-empty target (outer join with any other input) ndarray.take raises IndexError instead of giving an all-missing array',
+                     node=src.node)
+    else:
+        ctx.holds('R11', 'reindex_axis: take from the source axis guarded by a size test')
+
+
 def rule_env(ctx):
     ctx.rule('R6', 'NumPy names reachable from align() resolve', 1)
     npapi.check_reachable(ctx, 'R6', [ctx.fn(AL + 'align'), ctx.fn(AX + 'Axis.union'), ctx.fn(AX + 'Axis.intersection')], depth=3)
@@ -614,6 +710,7 @@ def check(ctx):
     rule_sort_ownership(ctx)
     rule_merge_cast(ctx)
     rule_union_direction(ctx)
+    rule_empty_labels(ctx)
     rule_env(ctx)
     # the reindex step that align() delegates to (each input keeps its data at its labels, NaN elsewhere)
     from . import c07
